@@ -47,8 +47,11 @@ FMT_SPECS = [None, dict(color='RED'), dict(color='GREEN', bold=True), dict(color
              # the same look as an earlier formatter, its effects named in another order
              dict(color=None, crossed=True, underline=True), dict(bold=True, color='GREEN'),
              # effects switched off by name (as a configuration with 'no_bold' does): the look of an earlier formatter
-             dict(color='RED', bold=False), dict(color=None, bold=False, faint=False), dict(color=100, faint=False, blink=False)]
+             dict(color='RED', bold=False), dict(color=None, bold=False, faint=False), dict(color=100, faint=False, blink=False),
+             # the darkest and the lightest gray, as foreground and as background
+             dict(color='g0'), dict(color='g23', bg_color='g0'), dict(color=None, bg_color='g00')]
 _FMTS = None
+_FMT_ERRORS = []
 
 
 def fmts():
@@ -61,7 +64,13 @@ def fmts():
                 continue
             kw = dict(spec)
             color = kw.pop('color')
-            f = ColorFmt(color, **kw)
+            try:
+                f = ColorFmt(color, **kw)
+            except Exception as err:
+                # (a documented look that cannot be made: reported by run_shard; the histories go on without it)
+                _FMT_ERRORS.append({"spec": repr(spec), "type": type(err).__name__, "msg": str(err)[:120]})
+                _FMTS.append((None, sgr.DEFAULT))
+                continue
             if kw.get('no_color'):
                 st = sgr.DEFAULT
             else:
@@ -170,7 +179,7 @@ def run_history(ctx, rng, script=None):
                     # (also bounds no machine word can hold: a str clips them like any other bound)
                     bounds = [None] + list(range(-la - 3, la + 4)) + [2 ** 63, 10 ** 30, -2 ** 63 - 1, sys.maxsize]
                     rec.extend([rng.choice(bounds), rng.choice(bounds),
-                                rng.choice([None, None, None, 1, 2, -1, 3])])
+                                rng.choice([None, None, None, 1, 2, -1, 3, 0])])
                 elif op in ('fixed', 'resize'):
                     rec.append(rng.randint(0, la + 3) if rng.random() < 0.7 else la)
                     if rng.random() < 0.01:
@@ -361,6 +370,14 @@ def run_history(ctx, rng, script=None):
                     if not is_text(a):
                         continue
                     lo, hi, st = rec[3], rec[4], rec[5]
+                    if st == 0:
+                        # a step of zero is no step: a str refuses it (ValueError), a text and a chunk do, too
+                        try:
+                            a[lo:hi:0]
+                            fail("slice-with-a-zero-step-accepted", {"op": rec})
+                        except ValueError:
+                            ctx.count("zero_steps_refused")
+                        continue
                     if st is not None and not isinstance(a, CHText.Chunk):
                         # extended slices are only promised for what str supports; CHText
                         # documents [start:stop]; keep steps for chunks (plain str slicing)
@@ -519,6 +536,9 @@ def control_characters_as_data(ctx, rng):
 
 
 def run_shard(ctx):
+    fmts()
+    for e in _FMT_ERRORS:
+        ctx.violation("documented-look-cannot-be-made", e, {"script": []})
     for i in range(ctx.cases):
         ctx.evaluated()
         if i % 8 == 3:
